@@ -34,26 +34,37 @@ Proof. intros u p H. discriminate. Qed.
 
 Lemma bind_tabs_inv : forall t p u t', Inv t -> bind_tabs t p u = Some t' -> Inv t'.
 Proof.
-  intros t p u t' HI H. unfold bind_tabs in H.
-  destruct (aget p (t_pre t)) as [old|] eqn:Eo.
-  - destruct (aget old (t_uri t)) eqn:Eu; [|discriminate]. injection H as H. subst t'.
-    intros u0 p0 H0. cbn [t_uri t_pre] in *.
-    destruct (N.eq_dec u0 u) as [E|N].
-    + subst u0. rewrite aget_aput_eq in H0. injection H0 as H0. subst p0. apply aget_aput_eq.
-    + rewrite aget_aput_neq in H0 by exact N.
-      destruct (N.eq_dec u0 old) as [E2|N2].
-      * subst u0. rewrite aget_aremove_eq in H0. discriminate.
-      * rewrite aget_aremove_neq in H0 by exact N2. pose proof (HI u0 p0 H0) as H1.
-        destruct (N.eq_dec p0 p) as [E3|N3].
-        -- subst p0. rewrite Eo in H1. injection H1 as H1. subst. contradiction.
-        -- rewrite aget_aput_neq by exact N3. exact H1.
-  - injection H as H. subst t'. intros u0 p0 H0. cbn [t_uri t_pre] in *.
-    destruct (N.eq_dec u0 u) as [E|N].
-    + subst u0. rewrite aget_aput_eq in H0. injection H0 as H0. subst p0. apply aget_aput_eq.
-    + rewrite aget_aput_neq in H0 by exact N. pose proof (HI u0 p0 H0) as H1.
-      destruct (N.eq_dec p0 p) as [E3|N3].
-      * subst p0. rewrite Eo in H1. discriminate.
-      * rewrite aget_aput_neq by exact N3. exact H1.
+  intros t p u t' HI H. unfold bind_tabs in H. injection H as H. subst t'.
+  intros u0 p0 H0. cbn [t_uri t_pre] in *.
+  destruct (N.eq_dec u0 u) as [E|N].
+  - subst u0. rewrite aget_aput_eq in H0. injection H0 as H0. subst p0. apply aget_aput_eq.
+  - rewrite aget_aput_neq in H0 by exact N.
+    (* the entry was already there before, and was not the one removed *)
+    assert (Hold : aget u0 (t_uri t) = Some p0 /\
+                   (p0 = p -> False)).
+    { destruct (aget p (t_pre t)) as [old|] eqn:Eo.
+      - destruct (aget old (t_uri t)) as [p'|] eqn:Eu.
+        + destruct (N.eqb_spec p' p) as [Ep|Np].
+          * subst p'. destruct (N.eq_dec u0 old) as [E2|N2].
+            -- subst u0. rewrite aget_aremove_eq in H0. discriminate.
+            -- rewrite aget_aremove_neq in H0 by exact N2. split; [exact H0|].
+               intros Ep0. subst p0. pose proof (HI u0 p H0) as H1. rewrite Eo in H1. injection H1 as H1. subst. contradiction.
+          * split; [exact H0|]. intros Ep0. subst p0. pose proof (HI u0 p H0) as H1. rewrite Eo in H1. injection H1 as H1.
+            subst u0. rewrite Eu in H0. injection H0 as H0. contradiction.
+        + split; [exact H0|]. intros Ep0. subst p0. pose proof (HI u0 p H0) as H1. rewrite Eo in H1. injection H1 as H1.
+          subst u0. rewrite Eu in H0. discriminate.
+      - split; [exact H0|]. intros Ep0. subst p0. pose proof (HI u0 p H0) as H1. rewrite Eo in H1. discriminate. }
+    destruct Hold as [H1 Hne]. pose proof (HI u0 p0 H1) as H2.
+    destruct (N.eq_dec p0 p) as [E3|N3]; [exfalso; apply Hne; exact E3|].
+    rewrite aget_aput_neq by exact N3. exact H2.
+Qed.
+
+(** the repaired binding never throws *)
+Lemma ns_run_total : forall ops st, exists st', ns_run ops st = Some st'.
+Proof.
+  induction ops as [|o r IH]; intros st; cbn [ns_run]; [eexists; reflexivity|].
+  destruct o as [| |p u]; cbn [ns_step]; try apply IH.
+  destruct st as [|top rest]; cbn [bind_tabs]; apply IH.
 Qed.
 
 Definition InvS (st : nsstate) : Prop := Forall (fun o => match o with Some t => Inv t | None => True end) st.
@@ -109,10 +120,7 @@ Proof.
   assert (Hu2 : get_uri st' p = Some u2).
   { cbn [ns_step] in Hb.
     destruct (match st with [] => [None] | _ :: _ => st end) as [|top rest]; [discriminate|].
-    destruct (bind_tabs (match top with Some t => t | None => visible rest end) p u2) as [t'|] eqn:E; [|discriminate].
-    injection Hb as Hb. subst st'. unfold get_uri. cbn [visible]. unfold bind_tabs in E.
-    destruct (aget p (t_pre _)); [destruct (aget n (t_uri _)); [|discriminate]|];
-      injection E as E; subst t'; cbn [t_pre]; apply aget_aput_eq. }
+    unfold bind_tabs in Hb. injection Hb as Hb. subst st'. unfold get_uri. cbn [visible t_pre]. apply aget_aput_eq. }
   rewrite Hu2 in Hu. injection Hu as Hu. apply Hne. symmetry. exact Hu.
 Qed.
 
@@ -122,7 +130,9 @@ Lemma fallback_refuted :
              get_prefix_fallback st 10 = Some 1 /\ get_uri st 1 = Some 20 /\ get_prefix st 10 = None.
 Proof. eexists. vm_compute. repeat split; reflexivity. Qed.
 
-(** finding F54: two prefixes on one URI, both rebound: removeKey throws *)
+(** finding F54 on the model of the code as found: two prefixes on one URI, both rebound: removeKey throws *)
 Lemma rebind_both_throws :
-  ns_run [Push; Bind 1 30; Bind 2 30; Push; Bind 1 10; Bind 2 20] [] = None.
-Proof. vm_compute. reflexivity. Qed.
+  ns_run_old [Push; Bind 1 30; Bind 2 30; Push; Bind 1 10; Bind 2 20] [] = None /\
+  exists st, ns_run [Push; Bind 1 30; Bind 2 30; Push; Bind 1 10; Bind 2 20] [] = Some st /\
+             get_uri st 1 = Some 10 /\ get_uri st 2 = Some 20 /\ get_prefix st 30 = None.
+Proof. split; [vm_compute; reflexivity|]. eexists. vm_compute. repeat split; reflexivity. Qed.
